@@ -11,7 +11,7 @@ from .c10 import _Abs
 
 MANIFEST_ENTRY = {
     "category": "proof",
-    "text": "for the real NodeRequire.evaluate with an abstract file system, parser and module body, and a module environment holding public, underscore-private and nested-module symbols: the plain and `as` forms add exactly one binding (the module name or alias) holding a module object whose members are the module's public, non-module symbols - the very value objects of the module environment; `import [a as b]` adds exactly the listed public symbols under their aliases; `unqualified` adds exactly the public symbols; underscore names are never exported and no other key of the importer's frame, no other frame and no other state except the module cache and load stack changes; the module body is evaluated iff the module is not cached, exactly once, in a fresh child of the *base* frame (so it cannot see importer variables), and the cached environment is reused without parsing or evaluating; a module already on the load stack is a language error; module text is parsed under the name mod:<module>; module graphs on the real interpreter by bounded generation; the require node of every unit is built by the real parser from the statement text; import lists with a symbol listed twice and the empty list",
+    "text": "for the real NodeRequire.evaluate with an abstract file system, parser and module body, and a module environment holding public, underscore-private and nested-module symbols: the plain and `as` forms add exactly one binding (the module name or alias) holding a module object whose members are the module's public, non-module symbols - the very value objects of the module environment; `import [a as b]` adds exactly the listed public symbols under their aliases; `unqualified` adds exactly the public symbols; underscore names are never exported and no other key of the importer's frame, no other frame and no other state except the module cache and load stack changes; the module body is evaluated iff the module is not cached, exactly once, in a fresh child of the *base* frame (so it cannot see importer variables), and the cached environment is reused without parsing or evaluating; a module already on the load stack is a language error; module text is parsed under the name mod:<module>; module graphs on the real interpreter by bounded generation; the require node of every unit is built by the real parser from the statement text; import lists with a symbol listed twice and the empty list; Interpreter.interpret leaves the interpreter's module load stack in place while a script runs",
     "note": "a requested but missing symbol in `import [...]` is silently ignored (the property does not speak about it); file lookup abstract; the three statement forms of the parser by bounded parsing",
     "technique": "deductive verification: frame postconditions of the importer environment (pyvc + z3) over all forms x cache states x sources; bounded module graphs as cross-check",
 }
